@@ -1404,6 +1404,8 @@ class Path:
         try:
             for g in lc.ghost_begin:
                 self.exec_ghost(g)
+            for e in lc.uses_begin:
+                self.assume_use(e, self.env.spec_view(old=self.entry))
             self.exec_block(s.body)
         except ContinueSig:
             pass
@@ -1463,6 +1465,8 @@ class Path:
             self.assign(s.target, elem)
             for g in lc.ghost_begin:
                 self.exec_ghost(g)
+            for e in lc.uses_begin:
+                self.assume_use(e, self.env.spec_view(old=self.entry))
             self.exec_block(s.body)
         except ContinueSig:
             pass
@@ -2209,6 +2213,29 @@ class Path:
             raise Unsupported("nested dict comprehension")
         g = n.generators[0]
         it = g.iter
+        if not env.spec:
+            dcs = [x for x in ast.walk(self.node) if isinstance(x, ast.DictComp)]
+            dcs.sort(key=lambda x: (x.lineno, x.col_offset))
+            kd = 1 + next(i for i, x in enumerate(dcs) if x is n)
+            lc = self.fc.loops.get("d%d" % kd)
+            if lc is not None:
+                # a dict comprehension whose value expression has effects (e.g. opens a file per key), executed as the loop it abbreviates:
+                #   _dacc<k> = {}; for <target> in <iter>: _dacc<k>[<key>] = <value>      (contract: fc.dict_comprehension(k, key, value))
+                if g.ifs:
+                    raise Unsupported("filtered dict comprehension with effects")
+                acc = "_dacc%d" % kd
+                self.env.locals[acc] = ops.map_empty(MapS(lc.key_sort, lc.elem_sort))
+                body = ast.Assign(targets=[ast.Subscript(value=ast.Name(acc, ast.Load()), slice=n.key, ctx=ast.Store())], value=n.value)
+                loop = ast.For(target=g.target, iter=g.iter, body=[body], orelse=[], lineno=getattr(n, "lineno", 0), col_offset=0)
+                ast.fix_missing_locations(loop)
+                for x in ast.walk(loop):
+                    if not hasattr(x, "lineno") or x.lineno is None:
+                        x.lineno = getattr(n, "lineno", 0)
+                if not hasattr(self, "synthetic_loops"):
+                    self.synthetic_loops = {}
+                self.synthetic_loops[id(loop)] = "d%d" % kd
+                self.exec_for(loop)
+                return self.env.locals[acc]
         if isinstance(it, ast.Call) and isinstance(it.func, ast.Attribute) and it.func.attr == "items" and not it.args:
             M = self.ev(it.func.value, env)
             if isinstance(M.s, MapS) and isinstance(g.target, ast.Tuple) and len(g.target.elts) == 2 \
